@@ -21,6 +21,7 @@ var outerDataStructs []*core_domain.CodeDataStruct // classes enclosing currentD
 var debug = false
 var output io.Writer
 var hasEnterMember = false
+var funcdefDepth = 0 // number of enclosing defs (Enter/ExitFuncdef keep it balanced)
 
 func NewPythonIdentListener(fileName string) *PythonIdentListener {
 	currentCodeFile = &core_domain.CodeContainer{}
@@ -101,6 +102,11 @@ func (s *PythonIdentListener) ExitClassdef(ctx *parser.ClassdefContext) {
 }
 
 func (s *PythonIdentListener) EnterFuncdef(ctx *parser.FuncdefContext) {
+	funcdefDepth++
+	if funcdefDepth > 1 {
+		// a def nested in a def is neither a method of the class nor a module-level function
+		return
+	}
 	hasEnterMember = true
 	function := core_domain.CodeFunction{
 		Name: ctx.Name().GetText(),
@@ -124,6 +130,7 @@ func (s *PythonIdentListener) EnterFuncdef(ctx *parser.FuncdefContext) {
 }
 
 func (s *PythonIdentListener) ExitFuncdef(ctx *parser.FuncdefContext) {
+	funcdefDepth--
 	hasEnterMember = false
 }
 
